@@ -617,7 +617,20 @@ class XPathToken(Token[ta.XPathTokenType]):
             if isinstance(op1, (int, float, decimal.Decimal)) and \
                     isinstance(op2, (AbstractDateTime, AbstractBinary, Duration)):
                 raise TypeError(msg.format(type(op1), type(op2)))
-            yield op1, op2
+            yield self.with_implicit_timezone(context, op1, op2)
+
+    @staticmethod
+    def with_implicit_timezone(context: ta.ContextType, op1: Any, op2: Any) -> tuple[Any, Any]:
+        """A timezone-less date/time operand of a comparison takes the implicit timezone."""
+        if isinstance(op1, AbstractDateTime) and isinstance(op2, AbstractDateTime) \
+                and context is not None and context.timezone is not None:
+            if op1.tzinfo is None:
+                op1 = copy(op1)
+                op1.tzinfo = context.timezone
+            if op2.tzinfo is None:
+                op2 = copy(op2)
+                op2.tzinfo = context.timezone
+        return op1, op2
 
     def get_operands(self, context: ta.ContextType, cls: type[Any] | None = None) -> Any:
         """
